@@ -74,13 +74,62 @@ def run_check(prop, tier='quick', seed=0, jobs=None, only=None):
     order = sorted(idxs, key=lambda i: -units[i].weight)
     ctx = mp.get_context('fork')
     outs = []
-    if jobs == 1 or len(order) == 1:
-        for i in order:
-            outs.append(_worker((prop, i, tier, seed)))
-    else:
-        with ctx.Pool(min(jobs, len(order)), maxtasksperchild=1) as pool:
-            for r in pool.imap_unordered(_worker, [(prop, i, tier, seed) for i in order]):
-                outs.append(r)
+    # one forked child per unit, at most `jobs` at a time, each under a hard wall-clock limit: a solver call that ignores its own
+    # time-out (seen with z3 on long sequence terms) must end as `undecided`, never hang the check
+    hard_s = float(os.environ.get('VERIF_UNIT_HARD_S', '2400'))
+    todo = list(order)
+    running = []
+
+    def _child(conn, a):
+        try:
+            os.setsid()          # own process group: a kill takes the unit's helpers (cvc5, lean, harness children) with it
+        except OSError:
+            pass
+        try:
+            conn.send(_worker(a))
+        except Exception as ex:      # noqa
+            conn.send({'unit': 'unit#%d' % a[1], 'kind': 'error', 'seconds': 0, 'results': [
+                {'id': '%s.unit%d.crash' % (prop, a[1]), 'kind': 'engine', 'clause': 'unit ran', 'status': 'error', 'backend': '',
+                 'seconds': 0, 'detail': repr(ex), 'witness': None}]})
+        conn.close()
+
+    while todo or running:
+        while todo and len(running) < jobs:
+            i = todo.pop(0)
+            a, b = ctx.Pipe(duplex=False)
+            pr = ctx.Process(target=_child, args=(b, (prop, i, tier, seed)))
+            pr.start()
+            b.close()
+            running.append((pr, a, i, time.time()))
+        time.sleep(0.02)
+        for it in list(running):
+            pr, a, i, ts = it
+            r = None
+            if a.poll():
+                try:
+                    r = a.recv()
+                except EOFError:
+                    r = False
+            elif not pr.is_alive():
+                r = False
+            elif time.time() - ts > hard_s:
+                try:
+                    os.killpg(pr.pid, 9)
+                except OSError:
+                    pr.kill()
+                r = {'unit': units[i].uid, 'kind': 'error', 'seconds': time.time() - ts, 'results': [
+                    {'id': '%s.%s.hard_timeout' % (prop, units[i].uid), 'kind': 'engine', 'clause': 'unit finished within its hard wall-clock limit',
+                     'status': 'undecided', 'backend': '', 'seconds': time.time() - ts,
+                     'detail': 'unit killed after %d s (VERIF_UNIT_HARD_S): undecided' % hard_s, 'witness': None}]}
+            if r is None:
+                continue
+            if r is False:
+                r = {'unit': units[i].uid, 'kind': 'error', 'seconds': time.time() - ts, 'results': [
+                    {'id': '%s.%s.crash' % (prop, units[i].uid), 'kind': 'engine', 'clause': 'unit ran', 'status': 'error', 'backend': '',
+                     'seconds': 0, 'detail': 'unit process died without a result (exit code %s)' % pr.exitcode, 'witness': None}]}
+            pr.join(1)
+            running.remove(it)
+            outs.append(r)
     outs.sort(key=lambda r: r['unit'])
     return finish(prop, tier, seed, mod, outs, time.time() - t0, partial=bool(only))
 
